@@ -276,7 +276,16 @@ def r4(R):
 
     def edge(node, st, lab, tgt):
         if node.kind == 'loophead':
-            return frozenset()
+            return frozenset(x for x in st if x == 'locked')
+        # the storage lock: "not issued before" is only worth something
+        # until the lock is given up
+        dl = lock_delta(F, node)
+        if dl > 0:
+            st = st | {'locked'}
+        elif dl < 0:
+            st = st - {'locked'}
+            if 'fresh' in st:
+                st = st | {'unlocked-since-check'}
         pr = probe(node)
         if pr is not None:
             if lab == 'e':
@@ -291,11 +300,22 @@ def r4(R):
                 isin = isinstance(inner.ops[0], ast.In)
                 if notin or isin:
                     fresh = (lab == 'T') == (notin == pol)
+                    st = st - {'unlocked-since-check'}
+                    if fresh and 'locked' not in st:
+                        st = st | {'unlocked-since-check'}
                     return (st | {'fresh'}) if fresh else (st - {'fresh'})
         if lab != 'e':
             for op in F.ops(node):
                 if op.kind == 'call' and path_is(
                         op.path, ('self', '_issued_oids', 'add')):
+                    if 'unlocked-since-check' in st or 'locked' not in st:
+                        return Violation(
+                            'DemoStorage.new_oid records the id as issued in '
+                            'another critical section than the one in which '
+                            'it found it not issued (the storage lock is '
+                            'released, or not held, in between): two '
+                            'concurrent callers both find the id free and '
+                            'both get it')
                     st = st | {'recorded'}
         return st
 
